@@ -96,35 +96,34 @@ def pick_bases(fam, n):
     return allb[::step][:n]
 
 
-def run(ctx, res):
+def blocks(tier):
+    thorough = tier == "thorough"
     blocks = []
     tsp2, esp2 = spaces.v2_temporal_spellings(), spaces.v2_env_spellings()
-    if ctx.thorough:
+    if thorough:
         blocks.append(Block("v2.t_x_e_spellings", "2", pick_bases("2", 3), tsp2, esp2))
     else:
         blocks.append(Block("v2.t_x_e_spellings", "2", pick_bases("2", 1), tsp2[::3], esp2))
     blocks.append(Block("v2.all_base_x_t_spellings", "2", spaces.v2_base_all(), tsp2))
     blocks.append(Block("v2.all_base_x_e_spellings", "2",
-                        spaces.v2_base_all() if ctx.thorough else spaces.v2_base_all()[::9],
+                        spaces.v2_base_all() if thorough else spaces.v2_base_all()[::9],
                         spaces.ABSENT, esp2))
     tsp3 = parts(T.V3_TEMPORAL, dict((m, [None] + T.V3[m]) for m in T.V3_TEMPORAL))
-    for fam in ("3.0", "3.1"):
-        blocks.append(Block("v%s.all_base_x_t_spellings" % fam, fam, spaces.v3_base_all(), tsp3))
-        if ctx.thorough:
-            dep = v3_env_departures(3)
-            blocks.append(Block("v%s.env<=3_departures" % fam, fam, pick_bases(fam, 24),
-                                tsp3[::45], dep))
-            blocks.append(Block("v%s.all_base_x_env<=1" % fam, fam, spaces.v3_base_all(),
-                                spaces.ABSENT, v3_env_departures(1)))
-        else:
-            dep = v3_env_departures(2)
-            blocks.append(Block("v%s.env<=2_departures" % fam, fam, pick_bases(fam, 16),
-                                tsp3[::60], dep))
-            blocks.append(Block("v%s.all_base_x_env<=1" % fam, fam, spaces.v3_base_all()[::4],
-                                spaces.ABSENT, v3_env_departures(1)))
-        blocks.append(Block("v%s.env_two_values" % fam, fam, pick_bases(fam, 12 if ctx.thorough else 4),
-                            tsp3[::90], v3_env_two_values()))
-    if ctx.thorough:
+    fam, twin = "3.0", "3.1"
+    blocks.append(Block("v3.all_base_x_t_spellings", fam, spaces.v3_base_all(), tsp3, twin=twin))
+    if thorough:
+        blocks.append(Block("v3.env<=3_departures", fam, pick_bases(fam, 24), tsp3[::45],
+                            v3_env_departures(3), twin=twin))
+        blocks.append(Block("v3.all_base_x_env<=1", fam, spaces.v3_base_all(), spaces.ABSENT,
+                            v3_env_departures(1), twin=twin))
+    else:
+        blocks.append(Block("v3.env<=2_departures", fam, pick_bases(fam, 16), tsp3[::60],
+                            v3_env_departures(2), twin=twin))
+        blocks.append(Block("v3.all_base_x_env<=1", fam, spaces.v3_base_all()[::4], spaces.ABSENT,
+                            v3_env_departures(1), twin=twin))
+    blocks.append(Block("v3.env_two_values", fam, pick_bases(fam, 12 if thorough else 4),
+                        tsp3[::90], v3_env_two_values(), twin=twin))
+    if thorough:
         # the complete environmental spelling space (30,000,000) on one base vector, v3.1
         full = dict((m, [None] + T.V3[m]) for m in T.V3_ENV)
         A = [("AV:A/AC:H/PR:L/UI:R/S:C/C:L/I:H/A:N/" + f if f else "AV:A/AC:H/PR:L/UI:R/S:C/C:L/I:H/A:N",
@@ -133,8 +132,13 @@ def run(ctx, res):
         B = parts(["MAV", "MAC", "MPR", "MUI"], full)
         C = parts(["MS", "MC", "MI", "MA"], full)
         blocks.append(Block("v3.1.complete_env_spelling_space", "3.1", A, B, C))
-    tot = sweep.merge(product.run(ctx, blocks, visit, sweep.new_acc))
-    sweep.fill(res, ctx, tot, blocks,
+    return blocks
+
+
+def run(ctx, res):
+    blocks_ = blocks(ctx.tier)
+    tot = sweep.merge(product.run(ctx, blocks_, visit, sweep.new_acc))
+    sweep.fill(res, ctx, tot, blocks_,
                "every point of the listed blocks of temporal/environmental *spellings* (each metric "
                "absent, Not Defined or any value) is constructed; both sub-vectors are compared "
                "with the model's own parse and the re-assembled vector must construct and score "
@@ -154,3 +158,7 @@ def replay(case):
         raise core.HarnessError("replay input is not a valid vector")
     why, obs = judge(fam, vec, dict(got))
     return bool(why), why or "faithful: %r" % (obs,)
+
+
+def replay_task(case):
+    return product.replay_task(blocks(case.get("tier") or "quick"), visit, sweep.new_acc, case)
